@@ -310,8 +310,10 @@ Section Ops.
 
   (** downloadBlob + blobDownload.Prepare/run for one layer whose bytes the registry serves as content [c] (None: 404).
       Layers here have one part (minDownloadPartSize is 100 MB).  Prepare resumes from the part record if there is one
-      (repaired, fixes/C12-torn-part-record.patch: a record that cannot be read is discarded and the download starts
-      over; unrepaired: Prepare fails), else HEAD + newPart (writePart: truncate, encode).  run: open -partial (no
+      (repaired, fixes/C12-torn-part-record.patch: the record is only used if it can be read and the -partial file it
+      describes exists — the real code also compares sizes, which this model does not carry —, otherwise it is discarded
+      and the download starts over; unrepaired: an unreadable record makes Prepare fail and any readable one is used),
+      else HEAD + newPart (writePart: truncate, encode).  run: open -partial (no
       truncation), fetch the part unless the record says it is complete and rewrite the record, verify the file against
       the digest, remove the record, rename into place — or, on a mismatch, remove the file. *)
   Definition download_gen (torn_fails : bool) (r : run) (l : layer) (oc : option N) : run * option bool (* Some hit | None = failed *) :=
@@ -325,10 +327,11 @@ Section Ops.
           | Some c => if size_of c =? 0 then Some (r, None)
                       else Some (emit (emit r (EPartRec h 0 PRTorn)) (EPartRec h 0 PRTodo), Some PRTodo)
           end in
+        let has_partial := existsb (dfile_eqb (DPartial h)) (debris (rs r)) in
         let prep : option (run * option prstate) :=
           match partrec_state h 0 (debris (rs r)) with
           | Some PRTorn => if torn_fails then None else fresh (emit r (ERmPart h 0))
-          | Some st => Some (r, Some st)
+          | Some st => if torn_fails || has_partial then Some (r, Some st) else fresh (emit r (ERmPart h 0))
           | None => fresh r
           end in
         match prep, oc with
@@ -342,9 +345,10 @@ Section Ops.
             if dcolon (ldg l) && (c =? h) then (emit r4 (ERenPartial h c), Some false)
             else (emit r4 (ERmDebris (DPartial h)), None)
         | Some (r1, _), None => (r1, None)
-        | None, _ => (match partrec_state h 0 (debris (rs r)), torn_fails with
-                      | Some PRTorn, false => emit r (ERmPart h 0)
-                      | _, _ => r
+        | None, _ => (match partrec_state h 0 (debris (rs r)) with
+                      | Some PRTorn => if torn_fails then r else emit r (ERmPart h 0)
+                      | Some _ => if torn_fails || has_partial then r else emit r (ERmPart h 0)
+                      | None => r
                       end, None)
         end
     end.
